@@ -14,7 +14,7 @@ import random
 PROPERTY = "C18"
 LEVEL = "exploration"
 RULE = ("histories of up to 12 (quick) / 50 (thorough) earlier assemblies drawn from valid, failing, internally crashing and hostile "
-        "(mutated) programs, then each of several probes out of 31 (valid with warnings, failing with several errors, .repeat, multi-file, "
+        "(mutated) programs, then each of several probes out of 35 (valid with warnings, failing with several errors, .repeat, multi-file, "
         "include, make_*), compared with the same probe in a fresh process; PYTHONHASHSEED 0-3 (quick) / 0-31 (thorough); "
         "distinct = distinct (history signature, probe) pairs")
 ASSUMPTIONS = ["diagnostic text is not compared (it legitimately contains d<counter> names); severity, identifier and positions are",
@@ -42,6 +42,9 @@ PROBES = [
     ("deep-sum", [("p.mac", ".word " + "1+" * 1999 + "1\n")]),
     ("deep-minus", [("p.mac", ".word " + "-" * 1500 + "1\n")]),
     # character literals the charset cannot encode: an error every time, not only the first time in a process
+    # a register name where a value is expected: the same diagnostic whatever was looked up before
+    ("register-as-value", [("p.mac", "count = 3\n mov #count, r0\n.word sp\n mov #r1, r0\n.word PC\n")]),
+    ("register-as-value-2", [("p.mac", ".word sp\n")]),
     ("bad-char-literal", [("p.mac", ".word 'é\n.word 1\n")]),
     ("bad-char-literal-again", [("q.mac", " nop\n.byte 'é, 1\n")]),
     ("bad-two-char-literal", [("p.mac", ".word \"é€\n")]),
@@ -49,6 +52,8 @@ PROBES = [
     ("dotless-directives", [("p.mac", "word 1\n even\n blkw 2\n byte 3\n")]),
     ("nop-even", [("p.mac", "nop even\n")]),
     ("word-as-variable", [("p.mac", "word = 3\nword, 5\nblkw: nop\n br blkw\n")]),
+    ("make-turbo", [("p.mac", "make_turbo_wav \"tt.wav\", \"TURBO\"\n .word 1, 177777, 125252\n .ascii \"payload\"\n")]),
+    ("make-both", [("p.mac", "make_wav \"n.wav\"\nmake_turbo_wav \"t.wav\"\nmake_bin\n .byte 0, 1, 2, 377\n")]),
     ("make", [("p.mac", "make_bin\nmake_raw \"o.raw\"\nmake_wav \"t.wav\", \"NAME\"\n .word 1\n")]),
     ("link-cancel", [("p.mac", "a: nop\n.link 1000+b-a\nb: nop\n .word a, b\n")]),
     ("lazy-sizes", [("p.mac", ".blkb n\n.even\nl1: .ascii \"x\" <c>\n.even\n.word l1\nn = 3\nc = 65.\n. = . + n\n.word .\n")]),
@@ -116,7 +121,15 @@ def observable(o, root):
         diags.append([e["sev"], e["id"], [[rel(s["file"]), s["start"], s["end"]] for s in e["spans"]]])
     emitted = []
     for ent in (o.emitted or []):
-        emitted.append([ent[2], rel(ent[3])] + [a.hex() if isinstance(a, bytes) else a for a in ent[4:]])
+        row = [ent[2], rel(ent[3])] + [a.hex() if isinstance(a, bytes) else a for a in ent[4:]]
+        if o.cls == "ok" and o.code is not None:
+            # the container that would be written for this directive (the encoders are part of what must be reproducible)
+            try:
+                from pdpy11.formats import file_formats
+                row.append(hashlib.sha1(file_formats[ent[2]](o.base, o.code, *ent[4:])).hexdigest()[:16])
+            except Exception as ex:  # pylint: disable=broad-except
+                row.append("encoder raised " + type(ex).__name__)
+        emitted.append(row)
     return {"cls": o.cls, "base": o.base, "code": o.code.hex() if o.code is not None else None, "emitted": emitted, "diags": diags,
             "exc": o.exc_type}
 
